@@ -28,8 +28,43 @@ func runC14(c *an.Ctx) {
 }
 
 // kindOf classifies a value by the variable-kind field it was flattened from.
-func kindOf(v ssa.Value) string {
+func kindOf(v ssa.Value) string { return kindOfDepth(v, 0) }
+
+func kindOfDepth(v ssa.Value, depth int) string {
 	kinds := map[string]bool{}
+	// a result of a same-package function (e.g. the per-kind flattenings returned together by a sibling method): look at
+	// what that function returns in that position
+	if depth < 2 {
+		sv := an.Strip(v)
+		idx := 0
+		var call *ssa.Call
+		if ex, ok := sv.(*ssa.Extract); ok {
+			call, _ = ex.Tuple.(*ssa.Call)
+			idx = ex.Index
+		} else if cl, ok := sv.(*ssa.Call); ok {
+			call = cl
+		}
+		if call != nil {
+			if cal := call.Call.StaticCallee(); cal != nil && cal.Blocks != nil && cal.Pkg != nil && call.Parent() != nil && call.Parent().Pkg == cal.Pkg &&
+				!strings.HasSuffix(an.CalleeName(&call.Call), ").Flattened") && !strings.HasSuffix(an.CalleeName(&call.Call), ").FlattenedParent") {
+				sub := map[string]bool{}
+				for _, ret := range an.Returns(cal) {
+					if rv := an.RetVal(ret, idx); rv != nil && !an.IsNilConst(rv) {
+						if c, isC := rv.(*ssa.Const); isC && c.Value == nil {
+							continue
+						}
+						sub[kindOfDepth(rv, depth+1)] = true
+					}
+				}
+				delete(sub, "?")
+				if len(sub) == 1 {
+					for k := range sub {
+						return k
+					}
+				}
+			}
+		}
+	}
 	for _, l := range an.BackSlice(v, an.SliceOpts{}) {
 		if l.Kind != "field" && l.Kind != "via" {
 			continue
